@@ -5,4 +5,5 @@ Extraction Language OCaml.
 Extraction "../ocaml/gen/c19_model.ml"
   py_isspace name_invalid blank name_eqb has_ls_param_or_annotation asks_server wrap_with_server
   empty_registry step attempt_trace run_attempts get_handler dispatch exec_command exec_site
-  s_empty spec_step spec_attempt_trace spec_run_attempts attempt_ok op_ok abs.
+  s_empty spec_step spec_attempt_trace spec_run_attempts attempt_ok op_ok abs
+  empty_world wstep wrun mstep sw_empty spec_wstep spec_wrun wop_ok abs_world.
